@@ -19,6 +19,7 @@ type Params struct {
 	Request    bool // a requester on A asks an echo actor on B
 	Actor      bool // one sender is an actor on A (two c.Send from one Receive)
 	SelfSender bool // with WithSender: the sender PID given is the target PID itself ("reply to yourself")
+	Peers      int  // 2: a second peer C; every second message of a sender goes to actor t1 on C (one writer per address)
 	NoEvents   bool // controlled leg: the sending node's event stream is detached too (the oracle then only looks at deliveries)
 	Restart    bool // after the early messages arrived the peer stops (connection lost) and a new engine comes up on the same address; then Late sends
 }
@@ -33,6 +34,9 @@ func (p Params) String() string {
 	}
 	if p.NoEvents {
 		s += "noev"
+	}
+	if p.Peers == 2 {
+		s += "peers2"
 	}
 	return s
 }
@@ -50,6 +54,7 @@ var Up = []Params{
 	{Senders: 1, PerT: 3, Targets: 2, WithSender: true, SelfSender: true},
 	{Senders: 1, PerT: 1, Targets: 1, Late: 1, Restart: true},
 	{Senders: 1, PerT: 1, Targets: 1, Late: 1, Restart: true, NoEvents: true},
+	{Senders: 1, PerT: 4, Targets: 2, WithSender: true, Peers: 2},
 }
 
 var Dn = []Params{
@@ -60,6 +65,7 @@ var Dn = []Params{
 }
 
 var UpLarge = append([]Params{
+	{Senders: 2, PerT: 2, Targets: 1, Peers: 2},
 	{Senders: 1, PerT: 2, Targets: 1, Late: 2, Restart: true},
 	{Senders: 2, PerT: 1, Targets: 2, Late: 1, Restart: true, WithSender: true},
 	{Senders: 3, PerT: 1, Targets: 2, WithSender: true},
